@@ -42,6 +42,9 @@ MCInit == \/ \E s \in Strs : InitWith([op |-> "pct", in |-> s])
                 InitWith([op |-> "spec_reuse", proto |-> p, used |-> u, base |-> b])
           \/ \E p \in {"connect", "grpc", "grpcweb"}, u \in {"badoption", "badurl"} :
                 InitWith([op |-> "client_init_fail", proto |-> p, used |-> u])
+          \* C10: a stream created under a deadline and first used later
+          \/ \E p \in {"connect", "grpc", "grpcweb"}, k \in {"client", "bidi"}, w \in {0, 300} :
+                InitWith([op |-> "deadline_wait", proto |-> p, used |-> k, secs |-> 5, d |-> w])
           \* C08 / C01: a unary Request sent twice, the message once above and once below the compression threshold
           \/ \E p \in {"connect", "grpc", "grpcweb"}, u \in {"large-first", "small-first"} :
                 InitWith([op |-> "enc_reuse", proto |-> p, used |-> u])
